@@ -38,12 +38,19 @@ def steps(token, key, frame, bad_token, bad_key):
         "send_cancel_2": ("sendc", frame, RT * 7 // 4, "ok", "silent"),
         "send_cancel_hs": ("sendc", frame, 50, "silent", "ok"),
         "auth_cancel": ("authc", token, key, RT * 5 // 4, "silent", "ok"),
+        # cancelled while the handshake reply is ON ITS WAY: the genuine reply arrives after the caller gave up and is
+        # still queued when the next exchange handshakes again on the same connection
+        "send_hs_late": ("send", frame, "late", "ok"),       # every handshake reply of this operation arrives 137 ms after its read timed out
+        "auth_late": ("auth", token, key, "late", "ok"),
+        "send_cancel_hs_late": ("sendc", frame, 30, "ok", "ok"),
+        "auth_cancel_late": ("authc", token, key, 30, "ok", "ok"),
         "clock_13h": ("adv", 13 * 3600 * 1000),
         "clock_12h1s": ("adv", 12 * 3600 * 1000 + 1000),
         "clock_25h": ("adv", 25 * 3600 * 1000),
         "clock_49h": ("adv", 49 * 3600 * 1000 + 7000),
         "clock_8d": ("adv", 8 * 24 * 3600 * 1000 + 3 * 3600 * 1000),
         "clock_life": ("adv", 61 * 1000),
+        "clock_1s": ("adv", 1000),
     }
 
 
@@ -58,7 +65,13 @@ def device_oracle(ctx, stream, inp, res):
         for k, e in enumerate(entries):
             if e["kind"] == "data":
                 if not e.get("tag_ok"):
-                    ctx.violate(stream, inp, {"cid": cid, "index": k, "error": e.get("error")},
+                    mech = None
+                    if e.get("verifies_under_handshake") is not None and e.get("stale_reply_in_flight"):
+                        # the unit's own records: the packet IS encrypted under the key of an earlier handshake of this
+                        # connection, whose reply was still in flight when the next handshake request was written
+                        mech = "late-handshake-reply"
+                    ctx.violate(stream, inp, {"cid": cid, "index": k, "error": e.get("error"), "mechanism": mech,
+                                              "verifies_under_handshake": e.get("verifies_under_handshake")},
                                 "data encrypted under the session key of the latest handshake on its connection",
                                 "data packet written before a successful handshake on that connection or under a stale key")
             elif e["kind"] != "hs":
@@ -76,12 +89,20 @@ def device_oracle(ctx, stream, inp, res):
                         "first thing written to a connection is not a handshake request")
 
 
+KNOWN = {
+    "D13-late-handshake-reply": lambda v: isinstance(v.get("observed"), dict) and v["observed"].get("mechanism") == "late-handshake-reply",
+}
+
+
 def expiry_oracle(ctx, stream, inp, res, ops):
     dev = res["dev"]
     times = res["times"]
     for i, op in enumerate(ops):
         if op[0] != "adv":
             continue
+        lifetime_active = any(o[0] == "life" and o[1] for o in ops[:i])
+        if not (op[1] >= 12 * 3600 * 1000 or (lifetime_active and op[1] >= 60000)):
+            continue            # a short pause: nothing has expired
         t_after = times[i]
         later = [e for e in dev.log if sessim.ms(e["t"]) >= t_after]
         before = [e for e in dev.log if sessim.ms(e["t"]) < t_after]
@@ -218,14 +239,39 @@ def run(ctx):
         for post in (["send"], ["send", "send"], ["send_silent", "send"], ["auth_good", "send"], ["send", "auth_good", "send"],
                      ["clock_13h", "send"], ["auth_silent", "send", "auth_good", "send"]):
             run_one(ctx, "first_handshake_fails", rng, post, with_life=False, first=f)
-    cancels = ["send_cancel_1", "send_cancel_2", "send_cancel_hs", "auth_cancel"]
+    cancels = ["send_cancel_1", "send_cancel_2", "send_cancel_hs", "auth_cancel", "send_cancel_hs_late", "auth_cancel_late"]
     for c in cancels:
         for pre in ([], ["send"], ["send_close"], ["clock_13h"], ["auth_bad"]):
             for post in (["send"], ["send", "send"], ["auth_good", "send"]):
                 run_one(ctx, "cancel", rng, pre + [c] + post, with_life=False)
-    alphabet = alphabet + jumps + cancels + ["send_hs_error", "send_hs_garbage", "auth_reply_bad"]
+    # a handshake reply that arrives AFTER its request was abandoned (timed out / cancelled).  When it is already queued
+    # at the start of the next handshake it must be discarded (the flush at the top of authenticate); when it is still in
+    # flight at that moment the library cannot tell it from the answer to the new request - known finding D13.
+    for c in ["send_cancel_hs_late", "auth_cancel_late", "send_hs_late", "auth_late"]:
+        for pre in ([], ["send"], ["send_close"], ["clock_13h"]):
+            for gap in ([], ["clock_1s"]):
+                for post in (["send"], ["send", "send"], ["auth_good", "send"]):
+                    run_one(ctx, "late_handshake_reply", rng, pre + [c] + gap + post, with_life=False)
+    alphabet = alphabet + jumps + cancels + ["send_hs_error", "send_hs_garbage", "auth_reply_bad", "send_hs_late", "auth_late", "clock_1s"]
     for _ in range(150 if not thorough else 3000):
         names = [rng.choice(alphabet) for _ in range(rng.randrange(3, 13 if not thorough else 31))]
+        late = {"send_hs_late", "auth_late", "send_cancel_hs_late", "auth_cancel_late"}
+        if sum(n in late for n in names) and sum(n in cancels or n in late for n in names) > 1:
+            # the cancellation instants are chosen inside read waits; a late handshake reply of an earlier operation moves
+            # the later waits (a cancellation could fall into the post-authentication sleep, which the model does not
+            # have as a cancellation point): one late step per history, and no other cancellation with it
+            first = next(n for n in names if n in late)
+            seen = False
+            out = []
+            for n in names:
+                if n == first and not seen:
+                    seen = True
+                    out.append(n)
+                elif n in late or n in cancels:
+                    out.append("send")
+                else:
+                    out.append(n)
+            names = out
         run_one(ctx, "random", rng, names, with_life=rng.random() < 0.4)
     long_session(ctx, rng, 4300 if not thorough else 70000)
 
